@@ -167,6 +167,9 @@ func run(c hx.Config) error {
 		for i := range perKind {
 			depth := 1 + i%maxDepth
 			s := cx.GenKind(r, depth, kind)
+			for _, m := range s.Members {
+				o.Count("member:" + m.MemberKind())
+			}
 			for range 3 {
 				v := s.Valid(r)
 				if ob := cx.Observe(s, v); !ob.OK {
@@ -197,14 +200,24 @@ func run(c hx.Config) error {
 	for range rounds {
 		for _, pk := range kinds {
 			for _, ck := range append(append([]string{}, kinds...), "wrap") {
-				bottom := genBottom(r, hx.Pick(r, bottoms))
-				var child *cx.Sch
-				if ck == "wrap" {
-					child = cx.Wrap(r, bottom, false)
-				} else if child = cx.GenOver(r, 2, ck, bottom); child == nil {
-					child = cx.GenKind(r, 1, ck) // set: its element is a leaf
+				// up to 5 attempts to get a chain that has an accepted instance
+				var s *cx.Sch
+				for range 5 {
+					bottom := genBottom(r, hx.Pick(r, bottoms))
+					var child *cx.Sch
+					if ck == "wrap" {
+						child = cx.Wrap(r, bottom, false)
+					} else if child = cx.GenOver(r, 2, ck, bottom); child == nil {
+						child = cx.GenKind(r, 1, ck) // set: its element is a leaf
+					}
+					s = cx.GenOver(r, 3, pk, child)
+					if s == nil {
+						break
+					}
+					if _, ok := validWith(r, s, 2); ok {
+						break
+					}
 				}
-				s := cx.GenOver(r, 3, pk, child)
 				if s == nil {
 					o.Count("chain:" + pk + ">" + ck + ":parent-does-not-take-this-child")
 					continue
